@@ -37,21 +37,76 @@ def scenarios(rng):
     return sc
 
 
+REFS = {}        # first line of a wrapped case (the interface's attributes) -> operations of its reference case
+
+
+def cont_frames():
+    M = F.STATIONS[1]
+    return [F.discover(M, 1, 1), F.qltlv(M, F.OWN, 2, 0x0e, 0), F.probe('0a0000000009', F.OWN, '0b0000000009', F.OWN), F.query(M, F.OWN, 3),
+            F.emit(M, F.OWN, 4, [(1, 0, F.STATIONS[2], F.STATIONS[3])])]
+
+
 def wrap(rng, head_extra, fault_ops, frames, a):
     ops = [F.iface_line(0, mac=F.OWN, mtu=576, **a), F.iface_line(1, mac=F.OWN, mtu=576, **a),
            F.glob_line(icon='gen:900:1', fname='gen:40:2', hwid='4100420043')] + head_extra + fault_ops
+    if ops[0] not in REFS:
+        # the reference: the same continuation on a responder that has just been STARTED (its own process: the harness forks per
+        # case) - process-wide state the faulty phase left behind cannot hide in it
+        r = ops[:3] + ['glob host=6d79686f7374 icon=gen:900:1 fname=gen:40:2 hwid=4100420043 emptyrep=null failsize=0', 'note recovered']
+        for f in cont_frames():
+            r += ['rx 0 %s zero' % f, 'rx 1 %s zero' % f]
+        REFS[ops[0]] = r
     ops += ['rx 0 %s zero' % f for f in frames if len(f) // 2 <= 576]
-    ops += ['fault clear', 'set 0 getfail=0', 'glob icon=gen:900:1 fname=gen:40:2 hwid=4100420043 emptyrep=null failsize=0', 'rx 0 %s zero' % F.reset(F.STATIONS[0]), 'note recovered']
-    M = F.STATIONS[1]
-    cont = [F.discover(M, 1, 1), F.qltlv(M, F.OWN, 2, 0x0e, 0), F.probe('0a0000000009', F.OWN, '0b0000000009', F.OWN), F.query(M, F.OWN, 3),
-            F.emit(M, F.OWN, 4, [(1, 0, F.STATIONS[2], F.STATIONS[3])])]
-    for f in cont:
+    ops += ['fault clear', 'set 0 getfail=0', 'glob host=6d79686f7374 icon=gen:900:1 fname=gen:40:2 hwid=4100420043 emptyrep=null failsize=0', 'rx 0 %s zero' % F.reset(F.STATIONS[0]), 'note recovered']
+    for f in cont_frames():
         ops.append('rx 0 %s zero' % f)
         ops.append('rx 1 %s zero' % f)
     return ops
 
 
+def reactions(impl_lines, iface):
+    """what interface `iface` transmitted / slept for each frame it received after the `note recovered` marker"""
+    out, cur, on = [], None, False
+    for l in impl_lines:
+        if l.startswith('# note recovered'):
+            on = True
+        elif l.startswith('# '):
+            if cur is not None:
+                out.append(cur)
+            cur = [] if (on and l.startswith('# rx %d ' % iface)) else None
+        elif cur is not None and l.startswith(('tx ', 'sleep ', 'abort')):
+            cur.append(l)
+    if cur is not None:
+        out.append(cur)
+    return out
+
+
+def extra_predicate(cases, impl):
+    """recovery judged against a freshly STARTED responder (the reference case runs in its own process)"""
+    res = {}
+    byops = {tuple(o): c for c, o in cases if c.split('_')[-2:-1] == ['ref'] or '_ref_' in c or c.startswith('ref_')}
+    for cid, ops in cases:
+        if 'note recovered' not in ops or ops[0] not in REFS or cid in byops.values():
+            continue
+        rid = byops.get(tuple(REFS[ops[0]]))
+        if rid is None or rid not in impl or cid not in impl:
+            continue
+        mine, ref = reactions(impl[cid], 0), reactions(impl[rid], 0)
+        if mine != ref:
+            k = next((i for i in range(min(len(mine), len(ref))) if mine[i] != ref[i]), min(len(mine), len(ref)))
+            res[cid] = (ops.index('note recovered') + 1 + 2 * k,
+                        'C18 recovery: after the faults cleared and a Reset, the responder answers frame %d of the continuation with %s where a freshly started responder (own process) answers %s'
+                        % (k, (mine[k] if k < len(mine) else ['<nothing>'])[:2], (ref[k] if k < len(ref) else ['<nothing>'])[:2]))
+    return res
+
+
 def cases(rng, tier, X):
+    out = cases_(rng, tier, X)
+    out += [('ref_%d' % i, r) for i, r in enumerate(REFS.values())]
+    return out
+
+
+def cases_(rng, tier, X):
     out = []
     a = dict(buf0=0)
     for name, frames in scenarios(rng):
@@ -72,7 +127,7 @@ def cases(rng, tier, X):
         out.append(('%s_sall' % name, wrap(rng, [], ['fault sendall'], frames, a)))
         out.append(('%s_s1_2_3' % name, wrap(rng, [], ['fault send=1,2,3'], frames, a)))
         # the process-wide getters fail during the faulty phase (icon / friendly name unavailable, hardware id empty) and work again afterwards
-        for gf in ('icon=none', 'fname=none', 'icon=none fname=none hwid=-', 'icon=- fname=-', 'icon=- fname=- emptyrep=block', 'icon=none fname=none failsize=40', 'icon=none failsize=3000'):     # the last: empty, handed over as zero-length blocks
+        for gf in ('host=-', 'host=- hwid=-', 'icon=none', 'fname=none', 'icon=none fname=none hwid=-', 'icon=- fname=-', 'icon=- fname=- emptyrep=block', 'icon=none fname=none failsize=40', 'icon=none failsize=3000'):     # the last: empty, handed over as zero-length blocks
             out.append(('%s_glob_%s' % (name, gf.replace(' ', '_').replace('=', '')), wrap(rng, ['glob ' + gf], [], frames, a)))
         masks = [1 << b for b in range(9)] + [rng.randrange(1, 512) for _ in range(6 if tier == 'quick' else 0)]
         if tier == 'thorough':
